@@ -599,9 +599,62 @@ fn run_reduce(ctx: &Ctx, rng: &mut Rng, out: &mut dyn Write) {
 ///   d4 <n> : <d4 line> ; <d4 line> ... :: add 1 :: rmv 1
 ///   c2d <n> : <c2d line> ; ... :: ...
 fn run_histories(out: &mut dyn Write) {
-    cnfc::register();
     let file = std::env::var("C11_HISTORIES").expect("C11_HISTORIES=<file>");
     let text = std::fs::read_to_string(&file).expect("cannot read the history file");
+    replay_histories("c11h", &text, out);
+}
+
+/// The minimal histories of the recorded findings (KNOWN_FINDINGS.txt, property C11) and their
+/// control histories: replayed on every run so that each finding is re-established (or seen to
+/// be gone) independently of the random part.
+const CORPUS: &str = "\
+# K3 new variable on an nnf-loaded model (c2d): ignored
+c2d 1 : nnf 5 4 1 ; A 0 ; L 1 ; L -1 ; O 1 2 1 2 ; A 2 0 3 :: add 2
+# K4 dead branch after a unit edit: core under-reports
+d4 3 : o 1 0 ; o 2 0 ; t 3 0 ; f 4 0 ; 1 3 1 2 3 0 ; 1 2 -1 0 ; 2 4 2 0 ; 2 3 -2 3 0 :: add 2
+# K8 removal on the unit-propagated stored clause list
+cnf 4 : -4 ; -4 3 ; -3 -1 ; -2 :: rmv -4
+cnf 2 : 1 2 :: add -1 :: rmv -1
+# K20 nnf-loaded d4 model with root = node 0: the model is replaced by the clause alone
+d4 1 : o 1 0 ; t 2 0 ; 1 2 -1 0 :: add 2
+# K21 removal on an nnf-loaded model
+d4 1 : o 1 0 ; t 2 0 ; 1 2 -1 0 :: add -1 :: rmv -1
+# K22 the stored clause list still contains an undone edit
+cnf 2 : 1 2 :: add 1 -2 :: rmv 1 -2 :: add -1 -2
+# K23 two different clauses removed in one edit
+cnf 2 : -1 2 ; -1 -2 :: rmv -1 2 ; rmv -2 -1
+# K24 sub-DAG replacement keeps a literal forced that the removed clause forced
+cnf 3 : -2 3 ; 1 -2 -3 ; 1 2 3 ; 2 -3 :: rmv 3 -2
+# K25 partial inverse answered from the undo cache
+cnf 2 : 1 ; 2 :: add 1 3 ; rmv 1 :: rmv 1 3
+# K26 unit add + removal: the removal is dropped
+cnf 2 : -1 :: add 2 ; rmv -1
+# K27 clause added to a CNF-loaded model without stored clauses: ignored
+cnf 2 : :: add 1 2
+# K28 unconstrained feature mentioned by a subsumed clause + sub-DAG replacement
+cnf 2 : 2 -1 ; 1 -2 :: add 3 2 -1 :: add 1 -2
+# K29 unit clause over a new variable answered by sub-DAG replacement
+cnf 3 : -1 2 3 :: add 4
+cnf 3 : -1 2 3 :: add 5
+# K30 sub-DAG replacement after a unit edit (control: the unit clause in the loaded CNF)
+cnf 3 : -2 -3 ; 1 2 3 :: add -2 :: add -3 -2
+cnf 3 : -2 -3 ; 1 2 3 ; -2 :: add -3 -2
+# K31 cyclic graph after unit edits
+cnf 3 : -1 2 ; -1 -2 -3 :: add 1 :: add -3 :: rmv -3
+# K32 second unit edit through a recycled node index
+cnf 4 : -1 3 ; 1 -2 -3 :: rmv -1 3 :: add 4 :: rmv 1 -3 -2 :: add 4
+# K33 panic in get_literals after an Undo
+cnf 3 : -1 2 3 ; -3 ; -1 -2 -3 :: add 1 3 2 :: rmv 1 3 2 :: add 3 -2
+# K34 inverse of an older edit after a unit edit
+cnf 3 : -1 3 ; 1 2 3 :: add 2 3 :: add -1 :: rmv 2 3
+# controls that hold: unit edit and its effect, recompile, exact inverse, tautology, duplicate
+cnf 3 : 1 2 ; -1 3 :: add 2
+cnf 3 : 1 2 ; -1 3 :: add -2 -3 :: rmv -2 -3
+cnf 3 : 1 2 ; -1 3 :: add 1 -1 :: add 1 2 2 :: add 4 -3
+";
+
+fn replay_histories(prefix: &str, text: &str, out: &mut dyn Write) {
+    cnfc::register();
     let dir = scratch_dir();
     let path = dir.join("start.cnf");
     for (k, line) in text.lines().enumerate() {
@@ -615,7 +668,7 @@ fn run_histories(out: &mut dyn Write) {
         let (fmt, n) = (ht[0], ht[1].parse::<u32>().unwrap());
         let body: Vec<String> = head.get(1).unwrap_or(&"").split(';').map(|x| x.trim().to_string()).filter(|x| !x.is_empty()).collect();
         let mut s = String::new();
-        writeln!(s, "case c11h-{} C11", k).unwrap();
+        writeln!(s, "case {}-{} C11", prefix, k).unwrap();
         writeln!(s, "info {}", line).unwrap();
         let loaded = if fmt == "cnf" {
             let cnf: Cnf = body.iter().map(|c| c.split_whitespace().map(|x| x.parse().unwrap()).collect()).collect();
@@ -688,6 +741,9 @@ pub fn run(kind: &str, ctx: &Ctx, out: &mut dyn Write) {
     }
     let mut rng = Rng::new(ctx.seed ^ 0x5eed_0011);
     let which = std::env::var("C11_PART").unwrap_or_default();
+    if which.is_empty() || which == "corpus" {
+        replay_histories("c11k", CORPUS, out);
+    }
     if which.is_empty() || which == "rc" {
         run_reduce(ctx, &mut rng, out);
     }
